@@ -413,3 +413,18 @@ def run(ctx):
 
     c05.shared(ctx, "C04.W1")  # a lost link leaves no partial frame in the buffer (it would be merged into the next connection's stream)
     check_dispatcher(ctx, "C04.W1", wakeups=True, consumers=True, reconnect=True)
+    # ... and the one consumer hands each message on itself: a thread per message lets later frames overtake earlier ones
+    # (the no-spawn rule of C06.P2, for the HSMS side)
+    from . import c06
+
+    sub = type(ctx)(ctx.prop, ctx.tier, ctx.seed, ctx.repo)
+    try:
+        c06.check_routing(sub)
+    except AnalysisError:
+        pass  # the routing rules themselves are C06's; only the spawn obligation is claimed here
+    kept = [o for o in sub.obligations if o["key"] == "no-spawn" and o["construct"].startswith("HsmsProtocol")]
+    ctx.require(len(kept) == 1, "C04.W1: the no-spawn obligation of HsmsProtocol._on_connection_message_received was not produced")
+    for o in kept:
+        o = dict(o)
+        o["rule"] = "C04.W1"
+        ctx.obligations.append(o)
